@@ -4,6 +4,7 @@ import RactorModel.Lemmas.FactoryQueuer
 import RactorModel.Lemmas.FactorySlotInst
 import RactorModel.Lemmas.FactoryActors
 import RactorModel.Lemmas.FactoryNoPanic
+import RactorModel.Lemmas.FactoryNoBacklog
 
 /-!
 # C14 — Factory routing keeps its promises about where a job runs
@@ -403,6 +404,32 @@ def startOrder (w : W) : List Nat := w.env.log.filterMap fun | .start _ id _ => 
 example : startOrder ((init f3Case).runSteps f3Steps) = [1, 2, 3] := by decide +kernel
 example : C14.routingOk f3Info ((init f3Case).runSteps f3Steps).env.log = true := by decide +kernel
 
+/-! ## Worker-queueing routers never leave a backlog -/
+
+/-- (key-persistent, round-robin, custom hash) For every configuration and EVERY sequence of operations — with
+and without a rate limiter, both queue types, any resize sequence incl. growth from an empty pool (the F3 flush),
+worker deaths, drain, a factory held busy —: a job waits in the FACTORY queue only while the pool has no workers
+at all (`pool_size = 0`). As soon as the pool has workers every job is in some worker's own queue (or handed over),
+which is what "jobs are pushed to the workers' queues" promises for these routers. This was oracle clause
+`c14-worker-router-backlog` only. Proof (`Lemmas/FactoryNoBacklog.lean`): with workers in the pool the router
+always names a slot that exists (`pool_shape`), so `dispatch` never backlogs; a growing `resize_pool` flushes the
+whole backlog (one job per `try_route_next_active_job`, until none is left); nothing else lengthens the queue. -/
+theorem worker_router_never_backlogs (c : CaseCfg) (hq : isFactoryQueueing c.cfg.router = false) (steps : List Step) :
+    ((init c).runSteps steps).queue ≠ [] → ((init c).runSteps steps).poolSize = 0 :=
+  no_backlog_run c hq steps
+
+/-- … and with workers in the pool the router asked without a hint always names a slot that exists, for ANY state
+with the pool shape of a reachable one -/
+theorem worker_router_always_has_target (w : W) (j : Job) (hq : isFactoryQueueing w.cfg.router = false)
+    (hs : Shape w.poolSize w.pool) (hn : w.poolSize ≠ 0) :
+    ∃ x, (w.chooseTargetWorker j none).1 = some x ∧ hasW w.pool x = true :=
+  choose_some_of_pool w j hq hs hn
+
+/-- non-vacuity: the F3 witness (key-persistent, pool grown from 0 with a backlog of 2): queue empty afterwards -/
+example : ((init f3Case).runSteps (f3Steps.take 3)).queue.length = 2 ∧ ((init f3Case).runSteps (f3Steps.take 3)).poolSize = 0 ∧
+    ((init f3Case).runSteps (f3Steps.take 4)).queue.length = 0 ∧ ((init f3Case).runSteps (f3Steps.take 4)).poolSize = 1 := by
+  decide +kernel
+
 /-! ### Non-vacuity -/
 def qCase : CaseCfg :=
   { cfg := { router := .q, prioQueue := false, hasHandler := true, table := [], hasCC := false }, n := 1, disc := none, rl := none }
@@ -456,5 +483,7 @@ end C14
 #print axioms C14.queue_pop_is_most_urgent_oldest
 #print axioms C14.queue_discard_oldest_is_least_urgent
 #print axioms C14.queue_peek_is_pop
+#print axioms C14.worker_router_never_backlogs
+#print axioms C14.worker_router_always_has_target
 #print axioms C14.busy_worker_starts_nothing
 #print axioms C14.cast_to_busy_queues
